@@ -310,7 +310,7 @@ class ArrayAttribute(_BaseAttribute):
                 data_attr_type = Attribute.Type(datatype)
                 if not self._can_be_casted(data_attr_type, self.type):
                     raise Attribute.TypeNotMatchingError(data, datatype, self.type)
-            self._data[key] = Vec(data)
+            self._data[key] = Vec(np.array(data, dtype=self.type.dtype)) # converted first: a uint64 array ([2**63, 1]) would wrap silently on assignment
         
         else:
             datatype = type(value)
